@@ -829,3 +829,86 @@ pub mod hmap {
         }
     }
 }
+
+
+/// Variant of `hmap` for the writers (IdMap / write_chrom_tree use new, default, insert, get, iter, len and
+/// `entry(k).or_insert(v)` only): `Entry` is a plain STRUCT. The enum-shaped Entry of `hmap` carries the
+/// `&mut` to the map inside an enum variant, i.e. through a C union for CBMC, after which the map is reached
+/// through an opaque pointer and its length and contents are no longer folded (measured with the spin probe).
+pub mod hmapw {
+    pub struct HashMap<K, V> {
+        items: Vec<(K, V)>,
+    }
+    pub struct Entry<'a, K, V> {
+        map: &'a mut HashMap<K, V>,
+        key: K,
+        idx: usize,
+    }
+    const VACANT: usize = usize::MAX;
+    impl<K: PartialEq, V> HashMap<K, V> {
+        pub fn new() -> Self { HashMap { items: Vec::with_capacity(4) } }
+        fn find<Q: ?Sized + PartialEq>(&self, k: &Q) -> usize where K: core::borrow::Borrow<Q> {
+            let mut i = 0;
+            while i < self.items.len() {
+                if self.items[i].0.borrow() == k { return i; }
+                i += 1;
+            }
+            VACANT
+        }
+        pub fn len(&self) -> usize { self.items.len() }
+        pub fn get<Q: ?Sized + PartialEq>(&self, k: &Q) -> Option<&V> where K: core::borrow::Borrow<Q> {
+            let i = self.find(k);
+            if i == VACANT { None } else { Some(&self.items[i].1) }
+        }
+        pub fn insert(&mut self, k: K, v: V) -> Option<V> {
+            let i = self.find(&k);
+            if i == VACANT {
+                assert!(self.items.len() < 4, "[hmap] model capacity exceeded");
+                self.items.push((k, v));
+                None
+            } else {
+                Some(core::mem::replace(&mut self.items[i].1, v))
+            }
+        }
+        pub fn entry(&mut self, k: K) -> Entry<'_, K, V> {
+            let idx = self.find(&k);
+            Entry { map: self, key: k, idx }
+        }
+        /// reverse insertion order (a real HashMap's order is unspecified)
+        pub fn iter(&self) -> Iter<'_, K, V> { Iter { map: self, left: self.items.len() } }
+    }
+    impl<'a, K, V> Entry<'a, K, V> {
+        pub fn or_insert(self, default: V) -> &'a mut V {
+            if self.idx == VACANT {
+                assert!(self.map.items.len() < 4, "[hmap] model capacity exceeded");
+                self.map.items.push((self.key, default));
+                let n = self.map.items.len();
+                &mut self.map.items[n - 1].1
+            } else {
+                &mut self.map.items[self.idx].1
+            }
+        }
+    }
+    pub struct Iter<'a, K, V> {
+        map: &'a HashMap<K, V>,
+        left: usize,
+    }
+    impl<'a, K, V> Iterator for Iter<'a, K, V> {
+        type Item = (&'a K, &'a V);
+        fn next(&mut self) -> Option<Self::Item> {
+            if self.left == 0 { return None; }
+            self.left -= 1;
+            let it = &self.map.items[self.left];
+            Some((&it.0, &it.1))
+        }
+    }
+    impl<K, V> Default for HashMap<K, V> {
+        fn default() -> Self { HashMap { items: Vec::with_capacity(4) } }
+    }
+    impl<K, V> core::fmt::Debug for HashMap<K, V> {
+        fn fmt(&self, _f: &mut core::fmt::Formatter<'_>) -> core::fmt::Result { Ok(()) }
+    }
+    impl<K: Clone, V: Clone> Clone for HashMap<K, V> {
+        fn clone(&self) -> Self { HashMap { items: self.items.clone() } }
+    }
+}
